@@ -153,6 +153,11 @@ impl ConnectionManager {
                     crate::verif::point_ctx("cm.accept", Some(self.endpoint.peer_id()), None, None);
                     if let Some(connecting) = connecting {
                         self.handle_incoming(connecting);
+                    } else {
+                        // The endpoint has been closed or its driver is gone (e.g. the runtime is
+                        // being torn down). `accept` will yield `None` immediately from now on, so
+                        // terminate instead of spinning on a permanently ready branch.
+                        break;
                     }
                 },
                 Some(connecting_output) = self.pending_connections.join_next() => {
